@@ -537,7 +537,13 @@ func TestVerifC20(t *testing.T) {
 	}
 	res := &core.DriverResult{Prop: "C20", Stats: map[string]int64{}}
 	defer res.Print()
-	if rp := os.Getenv("VERIF_REPLAY_CASE"); rp != "" {
+	rp := os.Getenv("VERIF_REPLAY_CASE")
+	if f := os.Getenv("VERIF_REPLAY_CASE_FILE"); f != "" {
+		if b, err := os.ReadFile(f); err == nil {
+			rp = string(b)
+		}
+	}
+	if rp != "" {
 		var c c20Case
 		if err := json.Unmarshal([]byte(rp), &c); err != nil {
 			res.Harness = err.Error()
